@@ -1,5 +1,6 @@
 (* C10 — decorated functions run forward, then f, then the inverses in reverse order. *)
 From Connectome Require Import Values LoopGen Loopback LoopbackFacts.
+From Connectome Require CtxGen.
 Local Open Scope list_scope.
 
 (* For every chain of layers - x defined (with or without a private parameter), inherited or absent; any @inverse
@@ -46,3 +47,15 @@ Example C10_example :
      = Some [VApp "Iy0" [VApp "Iy1" [VApp "f_y" [VApp "F0" [VStr "x0"] []] []] []; VApp "f_w" [VApp "F0" [VStr "x0"] []] []] []].
 Proof. vm_compute. auto. Qed.
 Print Assumptions C10_example.
+
+(* The loopback model (Model/Loopback.v) mirrors the reverse() of the three contexts (containers/context.py) and EdgesBag.loopback / function_to_bag (containers/base.py) and is compared with real chains.
+   The fingerprints (sha256 of the normalised body) are regenerated on every run; an edit of one of these functions re-opens this property
+   even if no sampled case shows a difference. *)
+Theorem C10_mirrored_functions_are_the_pinned_ones :
+  CtxGen.shape_BagContext_reverse = "d6af94e996b28a3b" /\
+  CtxGen.shape_ChainContext_reverse = "caed8193735534fa" /\
+  CtxGen.shape_IdentityContext_reverse = "b8adcce862536491" /\
+  CtxGen.shape_EdgesBag_loopback = "c1346cadc81cbd04" /\
+  CtxGen.shape_function_to_bag = "6497a5d8344921da".
+Proof. repeat split; reflexivity. Qed.
+Print Assumptions C10_mirrored_functions_are_the_pinned_ones.
